@@ -1,13 +1,12 @@
 #!/bin/sh
-# seedcheck.sh <seed dir> <PROPERTY> [tier] : apply a seeded change to /repo, run the property's check, undo.
-d=$1; p=$2; tier=${3:-quick}
-cd /repo || exit 2
-git diff --quiet || { echo "/repo is dirty"; exit 2; }
-git apply "$d/patch.diff" || { echo "patch does not apply"; exit 2; }
+# seedcheck.sh <seed dir> <PROPERTY> [tier]: run a property's check against a scratch
+# worktree of /repo with the seeded change applied (VERIF_REPO); /repo is not touched.
+d=$(cd "$1" && pwd); p=$2; tier=${3:-quick}
+wt=$(mktemp -d /tmp/seedwt.XXXXXX)
+git -C /repo worktree add --detach "$wt" HEAD >/dev/null 2>&1 || { echo "cannot create worktree"; exit 2; }
+cleanup() { git -C /repo worktree remove --force "$wt" >/dev/null 2>&1; git -C /repo worktree prune; }
+trap cleanup EXIT
+( cd "$wt" && git apply "$d/patch.diff" ) || { echo "patch does not apply"; exit 2; }
 export GOFLAGS=-mod=mod GOPROXY=off GOSUMDB=off
-go build ./... || { git checkout -- .; echo "does not build"; exit 2; }
-/verif/bin/gosmt check "$p" --tier "$tier" | grep -v "^  Harness" | tail -12
-rc=$?
-git checkout -- .
-git status --short | head -3
-exit $rc
+( cd "$wt" && go build ./... ) || { echo "does not build"; exit 2; }
+VERIF_REPO="$wt" VERIF_DIR=/verif /verif/bin/gosmt check "$p" --tier "$tier" --noevidence | grep -v "^  Harness" | tail -8
